@@ -69,6 +69,8 @@ struct Shared {
     /// gate ids in the order they started holding
     arrivals: Mutex<Vec<(u64, u32, i64, u64)>>,
     arrivals_cv: Condvar,
+    /// last schedule point reached per chain
+    last_point: Mutex<HashMap<i64, u32>>,
 }
 
 static SHARED: OnceLock<Arc<Shared>> = OnceLock::new();
@@ -85,6 +87,7 @@ fn shared() -> &'static Arc<Shared> {
             counter: AtomicU64::new(0),
             arrivals: Mutex::new(Vec::new()),
             arrivals_cv: Condvar::new(),
+            last_point: Mutex::new(HashMap::new()),
         });
         let s2 = s.clone();
         nuts_rs::verif::set_sched_callback(Some(Arc::new(move |point, chain, draw| {
@@ -104,6 +107,9 @@ fn on_point(s: &Shared, point: u32, chain: u64, draw: u64) {
     let chain_i = if chain == u64::MAX { -1 } else { chain as i64 };
     if point == pt::CHAIN_START {
         CURRENT_CHAIN.with(|c| c.set(chain_i));
+    }
+    if chain_i >= 0 {
+        s.last_point.lock().unwrap().insert(chain_i, point);
     }
     let (log, yield_pm, sleep_pm, max_sleep, seed, gate, timeout) = {
         let mut cfg = s.config.lock().unwrap();
@@ -175,6 +181,7 @@ pub fn reset(cfg: Config) {
     *s.config.lock().unwrap() = cfg;
     s.events.lock().unwrap().clear();
     s.arrivals.lock().unwrap().clear();
+    s.last_point.lock().unwrap().clear();
     let mut held = s.held.lock().unwrap();
     for v in held.values_mut() {
         *v = true;
@@ -182,6 +189,11 @@ pub fn reset(cfg: Config) {
     s.held_cv.notify_all();
     drop(held);
     s.gate_timeouts.store(0, Ordering::SeqCst);
+}
+
+/// Last schedule point reached by every chain that has started.
+pub fn chain_points() -> HashMap<i64, u32> {
+    shared().last_point.lock().unwrap().clone()
 }
 
 pub fn install() {
